@@ -135,13 +135,13 @@ def reevaluate(api_url, alert_f, state, zkclient, last_waited):
                     payload={},
                     headers={'X-Treadmill-Trusted-Agent': 'monitor'}
                 )
+                # The request went through: charge it whatever happens next.
+                conf['available'] -= allowed
 
                 if name in last_waited:
                     # this means app jump out of wait, need to clear it from zk
                     alert_f(name, 'Monitor active again', status='clear')
                     modified = True
-
-                conf['available'] -= allowed
             except restclient.NotFoundError:
                 _LOGGER.info('App not configured: %s', name)
                 suspended[name] = now + _DELAY_INTERVAL
